@@ -110,6 +110,12 @@ func PatchesFromDocument(doc string) ([]Patch, error) {
 			return nil, err
 		}
 
+		if entries, ok := parsed[key].([]interface{}); ok && len(entries) == 0 &&
+			(key == document.PublicKeyProperty || key == document.ServiceProperty || key == document.AlsoKnownAs) {
+			// an empty set of keys, services or URIs needs no patch (and an 'add' patch without entries is not valid)
+			continue
+		}
+
 		var docPatch Patch
 		switch key {
 		case document.PublicKeyProperty:
